@@ -12,6 +12,10 @@
       GCONINJE, NEXTSTEP, UDQ and ACTIONX registries; COMPORD: the connection ordering TRACK / DEPTH /
       INPUT a new well takes from the COMPORD keyword of its own report step, and the connection
       sequence `WellConnections::order()` produces after COMPDAT) is causal end to end (`causal`);
+    * no aliasing: the snapshots of `a ++ b` up to |a| are the snapshots of `a` alone, whatever the later
+      blocks re-issue for the same group (GRUPTREE re-parenting), well or segment (WSEGVALV / WSEGSICD /
+      WSEGAICD on multisegment wells) (`later_blocks_keep_earlier_states`); the multisegment keywords write
+      the segment map only (`msw_writes_segments_only`, `device_keyword_other_wells`);
     * the connection ordering of a well is fixed at its creation: no input of the same or any later
       report step — COMPORD keywords included — changes it (`well_order_fixed`);
     * the copy-on-write discipline: effect traces without in-place writes to shared objects and
@@ -28,6 +32,7 @@
 import OpmVerif.Proofs.SchedCore
 import OpmVerif.Proofs.SchedOrder
 import OpmVerif.Proofs.SchedHeap
+import OpmVerif.Proofs.SchedSeg
 import OpmVerif.Gen.HandlerEffects
 
 namespace OpmVerif.Props.C03
@@ -93,6 +98,31 @@ theorem causal_on_blocks (k : Consts) (a b b' : List (List CKw)) (ss ss' : List 
     (h : run k (a ++ b) = .ok ss) (h' : run k (a ++ b') = .ok ss') :
     ss.take a.length = ss'.take a.length :=
   causal_blocks h h'
+
+/-- No aliasing between snapshots.  The model's snapshots are values; what the C++ shares between the
+`ScheduleState` objects of consecutive report steps (the `Group` objects of `map_member`, the `WellSegments` a
+`Well` points to, …) and must therefore never edit in place has no counterpart here.  Stated as a property of the
+model: processing the blocks `b` after the blocks `a` never changes an earlier state — the first `|a|` snapshots of
+the whole run ARE the snapshots of running `a` alone, whatever `b` contains (a GRUPTREE that moves a group away
+from a parent the earlier snapshots know, a WSEGVALV / WSEGSICD / WSEGAICD for a segment that already carries a
+device, any keyword re-issued for the same well or group).  The correspondence run compares exactly this: every
+earlier state of the real `Schedule` is dumped after the whole deck has been processed. -/
+theorem later_blocks_keep_earlier_states (k : Consts) (a b : List (List CKw)) (ss ss0 : List State)
+    (h : run k (a ++ b) = .ok ss) (h0 : run k a = .ok ss0) : ss.take a.length = ss0 :=
+  run_prefix_is_run k a b ss ss0 h h0
+
+/-- The multisegment keywords (WELSEGS, WSEGVALV, WSEGSICD, WSEGAICD) write the segment map and nothing else:
+wells, groups, connections, statuses and events of the state are what they were (`Well::updateWSEGVALV/SICD/AICD`
+and `handleWELSEGS` replace `Well::segments` by a fresh copy). -/
+theorem msw_writes_segments_only (k : Consts) (m : List String) (s s' : State) (op : SegOp)
+    (h : handle k m s (.msw op) = .ok s') :
+    ∃ sm, segStep s.p op = .ok sm ∧ s' = { s with p := { s.p with segs := sm } } :=
+  handle_msw k m s s' op h
+
+/-- A device keyword leaves the segment set of every well it does not name as it was. -/
+theorem device_keyword_other_wells (f : List Seg → Except Err (List Seg)) (ns : List String) (sm sm' : List (String × List Seg))
+    (h : forSegs sm f ns = .ok sm') (w : String) (hw : w ∉ ns) : lookup sm' w = lookup sm w :=
+  forSegs_other f ns sm sm' h w hw
 
 /-- The connection ordering (COMPORD: TRACK / DEPTH / INPUT) of a well is fixed when the well is
 created: if the last snapshot of the prefix `a` knows well `w` with ordering `o`, every later
@@ -229,6 +259,50 @@ example : ((schedule k0 (d0.seconds * 1000) (.other (.compord [("OP_1", 1)]) :: 
 -- TRACK walks from the head: a connection in the head column comes before a nearer-to-surface one elsewhere
 example : (reorder 0 2 2 [{ i := 4, j := 4, k := 0, state := 1, complnum := 1, pimult := "1" }, { i := 1, j := 1, k := 3, state := 1, complnum := 2, pimult := "1" },
                           { i := 1, j := 1, k := 1, state := 1, complnum := 3, pimult := "1" }]).map (fun c => (c.i, c.k)) = [(1, 1), (1, 3), (4, 0)] := by decide
+
+/-! Aliasing (seeded changes C03-4 / C03-5).  Groups PLAT_A, PLAT_B under FIELD, G1 under PLAT_A, a multisegment
+well M1 in G1 with a valve on segment 3 from report step 1 on.  Report step 3 re-parents G1 to PLAT_B and re-issues
+WSEGVALV for the same segment with a smaller opening (tail R) — or the input stops after step 2 (truncation).
+States 0..2 are the same: PLAT_A keeps its child G1, the valve keeps its first setting. -/
+def preR : List (Kw CKw) :=
+  [.other (.ops "GRUPTREE" [.gruptree "PLAT_A" "FIELD", .gruptree "PLAT_B" "FIELD", .gruptree "G1" "PLAT_A"]),
+   .other (.ops "WELSPECS" [.welspecs "M1" "G1" (some 1) (some 1)]),
+   .other (.ops "COMPDAT" [.compdat "M1" 1 1 1 2 1]),
+   .other (.msw (.welsegs "M1" [{ num := 2, branch := 1, outlet := 1, diam := "d", rough := "r", area := "a" },
+                                { num := 3, branch := 1, outlet := 2, diam := "d", rough := "r", area := "a" }])),
+   .tstep [{ num := 31, den := 1 }],
+   .other (.msw (.valve "M1" [{ seg := 3, cv := "cv", ac := "wide", pd := none, pr := none, pa := none, isOpen := true, maxA := none }])),
+   .tstep [{ num := 28, den := 1 }],
+   .other (.ops "GCONPROD" [.gconprod { pat := "PLAT_B", cmode := 1, oil := some "o", water := none, gas := none, liquid := none, exceed := false }])]
+def tR : Kw CKw := .tstep [{ num := 31, den := 1 }]
+def tailR : List (Kw CKw) :=
+  [.other (.ops "GRUPTREE" [.gruptree "G1" "PLAT_B"]),
+   .other (.msw (.valve "M1" [{ seg := 3, cv := "cv", ac := "narrow", pd := some "D", pr := none, pa := none, isOpen := false, maxA := none }])),
+   .tstep [{ num := 30, den := 1 }]]
+def obsR (s : State) : Option (List String) × Option String × Option (Option Icd) :=
+  ((lookup s.p.groups "PLAT_A").map (·.groups), (lookup s.p.groups "G1").map (·.parent),
+   (lookup s.p.segs "M1").map fun ss => (ss.find? (·.num = 3)).map (·.icd))
+
+example : ((schedule k0 (d0.seconds * 1000) (preR ++ tR :: tailR)).toOption.map fun ss => ss.map obsR) =
+    some [(some ["G1"], some "PLAT_A", some (some .none)),
+          (some ["G1"], some "PLAT_A", some (some (.valve "cv" "wide" true "d" "r" "a" "a"))),
+          (some ["G1"], some "PLAT_A", some (some (.valve "cv" "wide" true "d" "r" "a" "a"))),
+          (some [], some "PLAT_B", some (some (.valve "cv" "narrow" false "D" "r" "a" "a"))),
+          (some [], some "PLAT_B", some (some (.valve "cv" "narrow" false "D" "r" "a" "a")))] := by decide +kernel
+example : ((schedule k0 (d0.seconds * 1000) (preR ++ tR :: [])).toOption.map fun ss => ss.map obsR) =
+    some [(some ["G1"], some "PLAT_A", some (some .none)),
+          (some ["G1"], some "PLAT_A", some (some (.valve "cv" "wide" true "d" "r" "a" "a"))),
+          (some ["G1"], some "PLAT_A", some (some (.valve "cv" "wide" true "d" "r" "a" "a"))),
+          (some ["G1"], some "PLAT_A", some (some (.valve "cv" "wide" true "d" "r" "a" "a")))] := by decide +kernel
+-- `later_blocks_keep_earlier_states` has instances: the blocks of the example, cut after block 2
+example : (match blocks (d0.seconds * 1000) (preR ++ tR :: tailR) with
+    | .ok bs => decide ((run k0 (bs.map Block.kws)).toOption.map (·.take 3) = (run k0 ((bs.map Block.kws).take 3)).toOption) &&
+                (run k0 (bs.map Block.kws)).toOption.map List.length == some 5
+    | .error _ => false) = true := by decide +kernel
+-- a device on a segment the well does not have is an input error; a device keyword for a well without segments is outside the model
+example : (segStep { wells := [("M1", { group := "G", headI := 1, headJ := 1, head0I := 1, head0J := 1, prod := newProd k0 1024, inj := newInj k0, efac := "1", econ := ("0", "0", "NONE") })],
+                     segs := [("M1", [topSeg, { num := 2, branch := 1, outlet := 1, diam := "d", rough := "r", area := "a" }])] }
+            (.sicd "M1" 7 "l" true)).toOption = none := by decide +kernel
 
 /-! restart with SKIPREST at report step 2 (1 FEB 2015): the skipped part contributes RPTRST and
 TUNING to block 0, its WELSPECS and its DATES record are dropped -/
